@@ -444,8 +444,9 @@ pub fn run(rep: &mut Report, thorough: bool) {
             crate::sig::Dispatch::Matched(_, _, n) => n,
             _ => continue,
         };
+        let xors: Vec<u8> = if thorough { (1..=255u8).collect() } else { vec![0x01, 0x20, 0x80] };
         for i in 0..n.min(pl.bytes.len()) {
-            for x in [0x01u8, 0x20, 0x80] {
+            for x in xors.iter().copied() {
                 let mut v = pl.bytes.clone();
                 v[i] ^= x;
                 near.push((format!("{}:byte{}^{:02x}", pl.name, i, x), v));
@@ -501,7 +502,36 @@ pub fn run(rep: &mut Report, thorough: bool) {
             let d = engine::unrank(it.idx, &ndims);
             let (name, pl) = &near[d[0] as usize];
             let at_end = d[1] == 0;
-            let dead = matches!(crate::sig::dispatch(&sigs2, pl, at_end), crate::sig::Dispatch::Dead | crate::sig::Dispatch::Pending);
+            let disp = crate::sig::dispatch(&sigs2, pl, at_end);
+            let dead = matches!(disp, crate::sig::Dispatch::Dead | crate::sig::Dispatch::Pending);
+            if let crate::sig::Dispatch::Matched(p, _, _) = disp {
+                // the altered bytes complete (another or the same) signature: only that
+                // protocol's responder may answer
+                let want = match p {
+                    crate::sig::Proto::Http => "http",
+                    crate::sig::Proto::Ssh => "ssh",
+                    crate::sig::Proto::Ghost => "ghost",
+                    crate::sig::Proto::Stun => "stun",
+                    crate::sig::Proto::RpcTcp | crate::sig::Proto::RpcUdp => "rpc",
+                    crate::sig::Proto::Smb1 | crate::sig::Proto::Smb2 => "smb",
+                };
+                if let Some((_, app)) = it.outs[1].reply.as_deref().and_then(crate::mask::app_payload) {
+                    if !app.is_empty() {
+                        let got = responder(&app);
+                        if got != want {
+                            sk.violation(Violation {
+                                prop: "C10".into(),
+                                key: format!("answered-by:{}-instead-of:{}", got, want),
+                                what: format!("payload '{}' ({}) completes the {} signature but is answered by the {} responder", name, crate::wire::hex(&pl[..pl.len().min(40)]), want, got),
+                                cfg: cfgn.clone(),
+                                cmds: it.cmds.to_vec(),
+                                idx: it.idx,
+                                stage: "near-miss".into(),
+                            });
+                        }
+                    }
+                }
+            }
             if !dead {
                 return;
             }
@@ -526,6 +556,6 @@ pub fn run(rep: &mut Report, thorough: bool) {
         },
         &mut rep.sink,
     );
-    rep.stage("near-miss", "every corpus request with one signature byte altered (3 alterations per position) or with trailing bytes, over UDP and as a first TCP segment, IPv4 and IPv6: no signature-dispatched responder may answer when the reference says no signature completes", engine::product(&ndims), t0);
+    rep.stage("near-miss", "every corpus request with one signature byte altered (quick: 3 alterations per position; thorough: all 255) or with trailing bytes, over UDP and as a first TCP segment, IPv4 and IPv6: no signature-dispatched responder may answer when the reference says no signature completes", engine::product(&ndims), t0);
     let _ = thorough;
 }
